@@ -143,6 +143,10 @@ type c07Case struct {
 	Conf   c07Conf `json:"conf"`
 	Live   string  `json:"live"`   // notlive | nil-notlive | cached-notlive | live | cached-live | live-othererr
 	Repeat bool    `json:"repeat"` // deliver the same message a second time
+	// Worker: the message goes through a real ingest worker (startIngestThread) instead of the
+	// harness calling parseRegMessage + ingestRegistration itself (added after a round-8 seed: the
+	// per-message loop over the registrations of a message belongs to the worker)
+	Worker bool `json:"worker,omitempty"`
 }
 
 func (m c07Msg) prescanned() bool { return m.Flags >= 0 && m.Flags&3 == 2 }
@@ -459,6 +463,7 @@ func c07Gen(rt *rapid.T, mode c07Mode) c07Case {
 
 	c.Live = c07Pick(rt, "live", p, []string{"notlive", "nil-notlive", "cached-notlive"}, []string{"live", "cached-live", "live-othererr"})
 	c.Repeat = rapid.IntRange(0, 3).Draw(rt, "repeat") == 0
+	c.Worker = rapid.IntRange(0, 1).Draw(rt, "worker") == 1
 	return c
 }
 
@@ -635,11 +640,15 @@ type c07Env struct {
 	modelSelector *phantoms.PhantomIPSelector
 	// prodRegistry is the registry NewRegistrationManager built (c07NewEnvProd)
 	prodRegistry *RegisteredDecoys
+	// viaWorker makes deliver hand the message to a real ingest worker (started on first use)
+	viaWorker bool
+	wch       chan interface{}
+	tb        testing.TB
 }
 
 func c07NewEnv(tb testing.TB, realDetector bool) *c07Env {
 	tb.Helper()
-	e := &c07Env{vEnv: vNewEnv(tb, &RegConfig{EnableIPv4: true, EnableIPv6: true}, c07Subnets), realDetector: realDetector}
+	e := &c07Env{vEnv: vNewEnv(tb, &RegConfig{EnableIPv4: true, EnableIPv6: true}, c07Subnets), realDetector: realDetector, tb: tb}
 	e.all = map[pb.TransportType]Transport{}
 	for k, v := range e.rm.registeredDecoys.transports {
 		e.all[k] = v
@@ -689,7 +698,7 @@ func c07NewEnvProd(tb testing.TB, stationToml string, realDetector bool) *c07Env
 	if err != nil {
 		tb.Fatalf("harness problem: prefix.Default: %v", err)
 	}
-	e := &c07Env{vEnv: ve, realDetector: realDetector, prodRegistry: rm.registeredDecoys}
+	e := &c07Env{vEnv: ve, realDetector: realDetector, prodRegistry: rm.registeredDecoys, tb: tb}
 	e.all = map[pb.TransportType]Transport{pb.TransportType_Min: min.Transport{}, pb.TransportType_Obfs4: obfs4.Transport{}, pb.TransportType_Prefix: pt, pb.TransportType_DTLS: c07UDP{}}
 	rm.connectingStats = c07NopStats{}
 	e.srv = httptest.NewServer(http.HandlerFunc(e.peerHandler))
@@ -817,6 +826,9 @@ func (e *c07Env) apply(cf c07Conf, live string) {
 // (share-over-API, connecting-transport dial-out). It returns the parse error, if any, and the
 // registration objects that were built.
 func (e *c07Env) deliver(msg []byte) ([]*DecoyRegistration, error) {
+	if e.viaWorker {
+		return nil, e.deliverViaWorker(msg)
+	}
 	regs, err := e.rm.parseRegMessage(msg)
 	if err == nil {
 		for _, r := range regs {
@@ -829,6 +841,31 @@ func (e *c07Env) deliver(msg []byte) ([]*DecoyRegistration, error) {
 		return regs, werr
 	}
 	return regs, err
+}
+
+// deliverViaWorker hands the message to a real ingest worker (the station's startIngestThread on
+// an unbuffered channel) and waits until the worker is back at its receive: a second, unparsable
+// message is accepted by the worker only after it has finished with the first one.
+func (e *c07Env) deliverViaWorker(msg []byte) error {
+	if e.wch == nil {
+		e.wch = make(chan interface{})
+		ctx, cancel := context.WithCancel(context.Background())
+		wg := &sync.WaitGroup{}
+		wg.Add(1)
+		go e.rm.startIngestThread(ctx, e.wch, wg)
+		if e.tb != nil {
+			e.tb.Cleanup(cancel)
+		}
+	}
+	for i, m := range [][]byte{msg, {0xff, 0xff, 0xff}} {
+		select {
+		case e.wch <- m:
+		case <-time.After(60 * time.Second):
+			buf := make([]byte, 1<<20)
+			return fmt.Errorf("%w: ingest worker did not take message %d within 60s:\n%s", errC07Harness, i, buf[:runtime.Stack(buf, true)])
+		}
+	}
+	return c07WaitBackground()
 }
 
 var errC07Harness = errors.New("harness")
